@@ -95,23 +95,37 @@ def sides_of_mailbox_count(rec_steps_upto, hist, i):
     return None
 
 
-def one_dup(acc, hist, cfg, seed, i, rec0, case):
+def one_dup(acc, hist, cfg, seed, i, rec0, case, keep=False):
     binds = diff.conn_apps(hist)
     c = hist[i][1]
     app, side = binds[c]
     cmd = explicit_cmd(hist, i)
     if cmd is None:
         return
-    dup = [["connect", "dup"], ["send", "dup", {"type": "bind", "appid": app, "side": side}], ["send", "dup", cmd], ["drop", "dup"]]
-    h2 = hist[:i + 1] + dup + hist[i + 1:]
+    dup = [["connect", "dup"], ["send", "dup", {"type": "bind", "appid": app, "side": side}], ["send", "dup", cmd]]
+    # the re-sending connection is dropped at once, or (keep) stays attached next to the stale original
+    # connection until the original closes / drops / the server restarts
+    j = i + 1
+    if keep:
+        j = len(hist)
+        for k in range(i + 1, len(hist)):
+            s = hist[k]
+            if s[0] in ("restart", "dropall") or (s[0] == "drop" and s[1] == c) or \
+                    (s[0] == "send" and s[1] == c and isinstance(s[2], dict) and s[2].get("type") == "close"):
+                j = k
+                break
+    h2 = hist[:i + 1] + dup + hist[i + 1:j] + [["drop", "dup"]] + hist[j:]
     rec2, cnt = observe(h2, cfg, seed)
     acc.steps += cnt["steps"]
     acc.frames += cnt["frames"]
     acc.ev["c14_duplicate_pair"] += 1
     acc.ev["c14_dup_" + cmd["type"]] += 1
+    if keep:
+        acc.ev["c14_dup_kept_connected"] += 1
     # remove the four duplicate steps from the second log, remember the duplicate's answer
     dup_answer_step = rec2.steps[i + 3]
-    steps2 = rec2.steps[:i + 1] + rec2.steps[i + 5:]
+    jj = j + 3          # position of the inserted drop in h2
+    steps2 = rec2.steps[:i + 1] + rec2.steps[i + 4:jj] + rec2.steps[jj + 1:]
     can1, can2 = diff.Canon(), diff.Canon()
     r1 = diff.Rec(); r1.steps = rec0.steps
     r2 = diff.Rec(); r2.steps = steps2
@@ -143,7 +157,7 @@ def one_dup(acc, hist, cfg, seed, i, rec0, case):
     if dup_err == ["crowded"]:
         acc.known.append({"id": "F7", "props": ["C05", "C14"], "step": i, "detail": {"cmd": cmd["type"], "side": side},
                           "replay": {"property": "C14", "kind": "dup", "case": case, "cfg": cfg.to_json(), "seed": seed,
-                                     "history": hist, "dup_at": i}})
+                                     "history": hist, "dup_at": i, "keep": keep}})
         return
     # self-check
     again, _ = observe(hist, cfg, seed)
@@ -151,7 +165,7 @@ def one_dup(acc, hist, cfg, seed, i, rec0, case):
     if diff.first_difference(diff.canon_frames(ra, diff.Canon()), diff.canon_frames(r1, diff.Canon())):
         acc.errors.append("self-check failed (uncontrolled nondeterminism) %s" % case)
         return
-    acc.add_violation({"property": "C14", "kind": "dup", "case": case, "cfg": cfg.to_json(), "seed": seed, "history": hist, "dup_at": i,
+    acc.add_violation({"property": "C14", "kind": "dup", "case": case, "cfg": cfg.to_json(), "seed": seed, "history": hist, "dup_at": i, "keep": keep,
                        "violation": {"props": ["C14"], "kind": "re-sent %s is not harmless" % cmd["type"],
                                      "detail": {"command": cmd, "conn": c, "side": side, "problems": problems}, "step": i}})
 
@@ -163,8 +177,8 @@ def check_history(acc, hist, cfg, seed, case, maxdup, rnd):
     el = eligible(hist, rec0)
     if len(el) > maxdup:
         el = sorted(rnd.sample(el, maxdup))
-    for i in el:
-        one_dup(acc, hist, cfg, seed, i, rec0, "%s@%d" % (case, i))
+    for n, i in enumerate(el):
+        one_dup(acc, hist, cfg, seed, i, rec0, "%s@%d" % (case, i), keep=bool((n + seed) % 2))
     acc.cases += 1
     if el:
         acc.distinct.add(hhash(hist))
@@ -228,5 +242,5 @@ def replay(pid, rep):
     acc = Acc(pid)
     cfg = Config.from_json(rep["cfg"])
     rec0, _ = observe(rep["history"], cfg, rep["seed"])
-    one_dup(acc, rep["history"], cfg, rep["seed"], rep["dup_at"], rec0, rep["case"])
+    one_dup(acc, rep["history"], cfg, rep["seed"], rep["dup_at"], rec0, rep["case"], keep=rep.get("keep", False))
     return acc
